@@ -258,7 +258,7 @@ def step_list(ctx, g, h, sh, rng):
     ob = lambda: rng.choice([None, 0, 1, -1, n, n + 1, 2, -2])  # noqa: E731
     m = rng.choice(["append", "insert", "extend", "iadd", "remove", "pop", "delitem", "delslice", "setitem", "setslice", "clear",
                     "reverse", "index", "index_bounds", "index_bounds", "count", "getitem", "getslice", "len", "contains", "iter", "reversed",
-                    "extslice_bad"])
+                    "extslice_bad", "setext", "setext"])
     ctx.count("list." + m)
     v = rng.choice(l) if (l and rng.random() < 0.3) else rng.choice(mods)
     vs = list(dict.fromkeys(rng.choice(mods) for _ in range(rng.choice([0, 1, 2, 3]))))
@@ -358,6 +358,33 @@ def step_list(ctx, g, h, sh, rng):
     elif m == "reverse":
         desc = "n%d.modules.reverse()" % ir
         ri = call(g, ml.reverse); rs = call(g, l.reverse); item = [28, ir]
+    elif m == "setext":
+        # an extended slice with the right-hand side mostly of the slice's size: members (a rearrangement), modules of elsewhere,
+        # repetitions; the built-in's placement, then moved-not-duplicated (assign_moved); the same item goes to the model
+        a, b = ob(), ob()
+        st = rng.choice([2, -1, -2, 3, -3, 0])
+        try:
+            npos = len(range(*slice(a, b, st).indices(n)))
+        except ValueError:
+            npos = 0
+        k = npos if rng.random() < 0.8 else rng.choice([0, 1, npos + 1])
+        r = rng.random()
+        if r < 0.3 and len(l) >= k:
+            xs = rng.sample(l, k)
+        else:
+            xs = [rng.choice(mods) for _ in range(k)]
+        desc = "n%d.modules[%s:%s:%s] = %s" % (ir, a, b, st, xs)
+        def fi(): ml[a:b:st] = [O[x] for x in xs]
+        ri = call(g, fi)
+        def fs(): assign_moved(l, slice(a, b, st), xs)
+        rs = call(g, fs)
+        if ri[0] == "ok":
+            for ll in sh.lists.values():
+                if ll is not l:
+                    for x in xs:
+                        if x in ll:
+                            ll.remove(x)
+        item = [32, ir, world.opt(a), world.opt(b), st, xs]
     elif m == "extslice_bad":
         # wrong-length extended slice: must fail like list and leave everything attached
         fresh = [x for x in mods if all(x not in ll for ll in sh.lists.values())][:1]
